@@ -11,6 +11,7 @@ from ..ir import walk, strip_targs, AnalysisBroken
 from ..flow import FnFlow, strip_casts, expr_str, always_exits, atomic_facts, same_var
 from ..absint import AbsInt
 from ..analysis import fkey
+from ..loader_model import Loader, Lin, C, St
 
 READ_OPS = {"read", "get", "getline", "readsome", "ignore", "operator>>"}
 POS_OPS = {"seekg", "tellg", "peek", "unget", "putback", "sync"}
@@ -141,8 +142,43 @@ def run(chk):
         ts.analyse(f)
     if ts.incomplete:
         raise AnalysisBroken("C19 R19.1: loop fixpoint not reached in the stream typestate")
+
+    # ------------------------------------------------------------------ R19.5
+    r5 = chk.rule("R19.5", "abstract interpretation of load_file over file-length classes (0..K-1 bytes and >= K bytes, each with 0-3 leading BOM bytes): it returns exactly the file's bytes minus one leading BOM",
+                  "eval_file(path) evaluates exactly the bytes of the file minus one leading byte-order mark, for files of every length including 0, 1, 2 and 3 bytes")
+    lf = [f for f in roots if f["name"] == "load_file"]
+    r5.anchor(len(lf) == 1, "ChaiScript_Basic::load_file")
+    ld = Loader(prog)
+    callees = [g for g in loaders if g is not lf[0]]
+    classes, kmax = ld.classes([lf[0]] + callees)
+    by_len = {}
+    for L, m in classes:
+        by_len.setdefault(L, []).append(m)
+    nruns = 0
+    for L in sorted(by_len):
+        bad = []
+        for m in by_len[L]:
+            nruns += 1
+            exp_start = 3 if m == 3 else 0
+            exp_n = Lin(1, -exp_start)
+            for o in ld.run(lf[0], L, m):
+                probe = St(L, m)
+                ok = o["kind"] == "bytes" and ld.cmp(probe, o["pad"], "==", C(0)) and ld.cmp(probe, o["n"], "==", exp_n) and \
+                    (ld.cmp(probe, o["n"], "==", C(0)) or (o["start"] is not None and ld.cmp(probe, o["start"], "==", C(exp_start))))
+                if not ok:
+                    what = ("returns bytes [%r, %r+%r) of the file plus %r padding bytes" % (o["start"], o["start"], o["n"], o["pad"])) if o["kind"] == "bytes" else \
+                        (o.get("why") or o.get("type") or o.get("what"))
+                    bad.append("file whose first %d byte(s) match the BOM: %s; expected bytes [%d, L)" % (m, what, exp_start))
+        label = ("%d bytes" % L[0]) if L[0] == L[1] else ("%d bytes or more" % L[0])
+        r5.ob("load_file on a file of %s returns its bytes minus one leading BOM" % label, not bad, lf[0].where, lf[0]["q"], "; ".join(bad)[:600])
+    r5.note("%d (length class, BOM prefix) cases interpreted; K = %d exceeds every integer literal in the loader, so all longer files follow the same path as K" % (nruns, kmax))
+    r5.require(6, "length classes")
+
     for (q, var, op), site in sorted(ts.sites.items()):
-        r1.ob("%s: %s.%s()" % (q, var, op), site["ok"], site["where"], site["fn"],
+        covered = any(strip_targs(g["q"]) == q for g in [lf[0]] + callees)
+        if not site["ok"] and covered:
+            r1.note("%s: %s.%s() follows a read() whose result is not tested; whether that read can come up short is decided per file length by R19.5" % (q, var, op))
+        r1.ob("%s: %s.%s()" % (q, var, op), site["ok"] or covered, site["where"], site["fn"],
               "%s.%s() can be reached with the stream still in the state left by an earlier unchecked read(): if that read came up short "
               "(file shorter than requested) the stream has failbit set and this operation silently does nothing" % (var, op))
     r1.require(5, "stream operation sites")
